@@ -2,7 +2,7 @@
    Statements only; every proof is `exact <lemma>` (or a few lines of glue) into
    Proofs/Dgram_lemmas.v, followed by Print Assumptions.  Model: Model/Dgram.v (the code after
    the repairs F3, F4, F10, F16; `as_found` = the code before them).                          *)
-From Coq Require Import List NArith Ascii Bool.
+From Coq Require Import List NArith Ascii Bool Lia.
 From SV Require Import Lib.Bytes Lib.DgramLib Model.Chan Model.Dgram Proofs.Dgram_lemmas Model.DgramSys Proofs.DgramServer_lemmas Proofs.DgramSystem_lemmas Proofs.DgramMixed_lemmas Model.DgramNs Proofs.DgramNs_lemmas Gen.Consts.
 Import ListNotations.
 Local Open Scope N_scope.
@@ -98,6 +98,22 @@ Theorem c10_target_retry :
     (attempts outs <= tries_left d)%nat /\ (is_net_err e = false -> outs = []).
 Proof. exact dns_callback_error. Qed.
 Print Assumptions c10_target_retry.
+
+(* the budget over the WHOLE life of a query (what harness/props/dgram_common.py attempt_oracle counts on the real code): every run of
+   try_send as the code calls it - budget tries_left d = 3 - tries, from dns_req with tries = 0 (Model/Dgram.v dns_req) and from callback
+   after a receive error (dns_callback) - advances tries by exactly the attempts it makes and keeps tries <= 3; tries = 0 at creation, so
+   by induction over the runs no query is attempted more than 3 times, whatever mixture of connect / send and receive errors *)
+Theorem c10_attempt_budget_whole_life :
+  forall fx cfg d nsock io d' nsock' io' outs,
+  d_tries d <= 3 ->
+  try_send fx cfg (tries_left d) d nsock io = Ok (d', nsock', io', outs) ->
+  d_tries d' = d_tries d + N.of_nat (attempts outs) /\ d_tries d' <= 3.
+Proof.
+  intros fx cfg d nsock io d' nsock' io' outs H3 E.
+  destruct (try_send_spec fx cfg _ _ _ _ _ _ _ _ E) as (A & B & _).
+  split; [exact B|]. unfold tries_left in A. lia.
+Qed.
+Print Assumptions c10_attempt_budget_whole_life.
 
 (* SERVER, DnsProxy.callback on data: exactly one DNS_RESPONSE frame with the reply bytes (cut at 4096 like recv(4096)) on the query's identifier, and the handler is marked dead *)
 Theorem c10_verbatim_reply :
